@@ -1100,6 +1100,9 @@ class SyncObj(object):
 
     def __onNodeDisconnected(self, node):
         self.__connectedNodes.discard(node)
+        # A snapshot transfer belongs to the connection it was started on: chunks
+        # already handed to the lost connection are gone, so it can't be resumed.
+        self.__serializer.cancelTransmisstion(node)
 
     def __getCurrentLogIndex(self):
         return self.__raftLog[-1][1]
